@@ -286,6 +286,10 @@ static Outcome run(tape_t const& tape)
             if (err.empty())
             {
                 if (in.finalizer != 1) do_finalize_from(in.finalizer);
+                // stop() drains the remaining work and returns: every generated task is finite (bounded spins, yields, waits that are
+                // signalled by other generated tasks); a stop() that is still waiting after 30 s while the ledger shows what is left
+                // is a hang, not slowness (the per-case watchdog is 60 s)
+                BoundedCall bc("pika::stop() (finalize was called; it has to drain the remaining tasks and return)", 30.0);
                 result = pika::stop();
             }
             q.finish();
